@@ -225,8 +225,9 @@ def gen_instance(rng, iid, family='random', nmax_geos=6):
     if min(others) > 0 and tot[g0] < 0.9 * min(others):
       days = sorted(d for (gg, d) in cells if gg == g0)
       if iid % 9 == 4:
+        f = max(1.0, 0.85 * min(others) / max(tot[g0], 1))     # as large as the next geo allows
         for d in days:
-          cells[(g0, d)] = -cells[(g0, d)]
+          cells[(g0, d)] = -int(round(cells[(g0, d)] * f))
       elif len(days) >= 4:
         amp = random.Random(iid * 31 + 7)
         for j in range(0, len(days) - 1, 2):
@@ -417,6 +418,16 @@ def build_objects(inst, variant=None):
         kw[key] = (float(kw[key][0]), float(kw[key][1]))
   par = tbrmmdesignparameters.TBRMMDesignParameters(**kw)
   data = tbrmmdata.TBRMMData(df, 'response', elig_obj)
+  if inst['id'] % 5 == 2 and not variant:
+    # the user has looked at the data object first: a geo index (all assignable geos in row order, which is what a
+    # searcher will install when nothing is screened out) is already set and the aggregates have been read
+    try:
+      data.geo_index = [g for g in data.df.index if g in data.assignable]
+      if data.geo_index:
+        data.aggregate_time_series({0})
+        data.aggregate_geo_share({0})
+    except Exception:  # pylint: disable=broad-except
+      pass
   return data, par, ids
 
 
